@@ -145,9 +145,10 @@ class Comp(SymVal):
     """comprehension result: kind in list/set/dict/gen; src = iterated SymVal; bound = list of z3
     V constants bound to the target names; body = SymVal (list/set) or (key, value) (dict)"""
 
-    __slots__ = ("kind", "src", "bound", "body", "pattern")
+    __slots__ = ("kind", "src", "bound", "body", "pattern", "outer")
 
-    def __init__(self, kind, src, bound, body, pattern):
+    def __init__(self, kind, src, bound, body, pattern, outer=()):
+        self.outer = tuple(outer)  # bound variables of enclosing comprehensions
         self.kind = kind
         self.src = src
         self.bound = bound
@@ -232,6 +233,7 @@ class Engine:
         self.iterable = z3.Function("iterable", V, B)
         self.attr_names = set()
         self.opaque_cache = {}
+        self.bound_stack = []
         self.items_of = {}  # id of a named comprehension source -> the mapping whose .items() it is
         self.class_consts = {}  # const key -> class object seen
         self.trusted = set()
@@ -331,12 +333,15 @@ class Engine:
             # opaque object, hash-consed on the canonical structure (alpha-renamed bound variables):
             # syntactically equal comprehensions denote the same term (sound: they are equal values
             # up to identity, and identity of fresh containers is never compared through terms)
-            key = self.canon(v, [])
-            c = self.opaque_cache.get(key)
-            if c is None:
-                c = self.fresh("opaque_" + type(v).__name__)
-                self.opaque_cache[key] = c
-            return c
+            outer = list(getattr(v, "outer", ()))
+            sub0 = [(bv, z3.Const(f"obv!{i}", self.V)) for i, bv in enumerate(outer)]
+            key = (len(outer), self.canon(v, sub0))
+            f = self.opaque_cache.get(key)
+            if f is None:
+                self.n += 1
+                f = z3.Function(f"opaque_{type(v).__name__}!{self.n}", *([self.V] * len(outer)), self.V)
+                self.opaque_cache[key] = f
+            return f(*outer) if outer else f()
         raise NotInSubset(f"term of {type(v).__name__}")
 
     def canon(self, v, sub):
@@ -424,23 +429,40 @@ class Engine:
             return z3.If(b.c, self.is_(a, b.a), self.is_(a, b.b))
         return self.term(a) == self.term(b)
 
-    def norm(self, v):
-        """a comprehension with identity body and x.copy() both denote a fresh shallow copy"""
+    def norm(self, v, lenient=False):
+        """a comprehension with identity body and x.copy() both denote a fresh shallow copy;
+        lenient (code side only): an element that is a fresh copy of the bound element counts as
+        the element (copying more than the specification demands is value-equal)"""
         if isinstance(v, Comp):
-            if v.kind == "list" and v.pattern == "name" and self._is_identity(v.body, v.bound[0]):
+            if v.kind == "list" and v.pattern == "name" and self._is_identity(v.body, v.bound[0], lenient):
                 return Call(("freshcopy",), "freshcopy", [v.src])
-            if (v.kind == "dict" and v.pattern == ("tuple", 2) and self._is_identity(v.body[0], v.bound[0])
-                    and self._is_identity(v.body[1], v.bound[1])):
+            if (v.kind == "dict" and v.pattern == ("tuple", 2) and self._is_identity(v.body[0], v.bound[0], lenient)
+                    and self._is_identity(v.body[1], v.bound[1], lenient)):
                 return Call(("freshcopy",), "freshcopy", [Tm(self.unitems(self.term(v.src)))])
         if isinstance(v, Call) and v.key == ("meth", "copy") and len(v.args) == 1 and not v.kw:
             return Call(("freshcopy",), "freshcopy", [v.args[0]])
         return v
 
-    def _is_identity(self, body, b):
+    def _is_identity(self, body, b, lenient=False):
         """does the (pure, scalar) body denote the bound variable itself?  e.g.
         `value if value is not None else None`"""
         if isinstance(body, Tm):
             return z3.eq(body.t, b)
+        if lenient:
+            nb = self.norm(body, True) if isinstance(body, (Comp, Call)) else body
+            if isinstance(nb, Call) and nb.key == ("freshcopy",) and len(nb.args) == 1:
+                return self._is_identity(nb.args[0], b, True)
+            if isinstance(nb, Ite) and isinstance(nb.b, Ob) and nb.b.o is None:
+                # `copy(v) if v is not None else None`
+                c = z3.simplify(nb.c)
+                inner = nb.a
+                ni = self.norm(inner, True) if isinstance(inner, (Comp, Call)) else inner
+                if isinstance(ni, Call) and ni.key == ("freshcopy",) and self._is_identity(ni.args[0], b, True):
+                    s = z3.Solver()
+                    s.set("timeout", 2000)
+                    s.add(c != (b != self.const(None)))
+                    if s.check() == z3.unsat:
+                        return True
         if isinstance(body, Ite) and not _has_fresh(body):
             def scalar(x):
                 return isinstance(x, (Tm, Ob)) or (isinstance(x, Ite) and scalar(x.a) and scalar(x.b))
@@ -468,7 +490,8 @@ class Engine:
     def eq_struct(self, a, b):
         """sufficient condition for 'a and b denote equal values built from the same classes'
         (structural congruence; extensional for comprehensions)"""
-        a, b = self.norm(a), self.norm(b)
+        b = self.norm(b)
+        a = self.norm(a, isinstance(b, (Tm, Ite)) and not _has_fresh(b))
         # asymmetric (a = code, b = specification): where the specification allows the input
         # container itself to be returned (no_copy_collections), returning a fresh shallow copy of
         # it is equal as a value and shares less; the converse (aliasing where the specification
@@ -603,7 +626,9 @@ def subst(v, sub):
         return LD([(k, subst(a, sub)) for k, a in v.items])
     if isinstance(v, Comp):
         body = tuple(subst(x, sub) for x in v.body) if v.kind == "dict" else subst(v.body, sub)
-        return Comp(v.kind, subst(v.src, sub), v.bound, body, v.pattern)
+        m = {o.get_id(): n for o, n in sub}
+        outer = tuple(m.get(o.get_id(), o) for o in v.outer)
+        return Comp(v.kind, subst(v.src, sub), v.bound, body, v.pattern, outer=outer)
     if isinstance(v, KeySet):
         return KeySet(subst(v.d, sub), v.minus)
     raise NotInSubset(f"subst of {type(v).__name__}")
@@ -1298,10 +1323,14 @@ class Executor:
         st2 = st.clone()
         for n, b in zip(names, bound):
             st2.env[n] = Tm(b)
-        if kind == "dict":
-            body = (self.eval(elt[0], st2, inner), self.eval(elt[1], st2, inner))
-        else:
-            body = self.eval(elt, st2, inner)
+        eng.bound_stack.extend(bound)
+        try:
+            if kind == "dict":
+                body = (self.eval(elt[0], st2, inner), self.eval(elt[1], st2, inner))
+            else:
+                body = self.eval(elt, st2, inner)
+        finally:
+            del eng.bound_stack[len(eng.bound_stack) - len(bound):]
         mem = eng.member(Tm(srct), bound, pattern)
         # the comprehension raises iff the body raises for some element
         if inner.raises:
@@ -1313,7 +1342,7 @@ class Executor:
         if inner.hyps:
             ctx.hyps.append(z3.ForAll(bound, z3.Implies(mem, z3.And(*inner.hyps)), patterns=[mem]))
         ctx.ghosts.extend(("each", tuple(bound), mem, gh) for gh in inner.ghosts)
-        return Comp(kind, Tm(srct), bound, body, pattern)
+        return Comp(kind, Tm(srct), bound, body, pattern, outer=tuple(eng.bound_stack))
 
     # ---- calls
     def ev_Call(self, node, st, ctx):
@@ -1636,8 +1665,10 @@ class Prover:
             return Verdict(name, "refuted", s.model(), dt)
         return Verdict(name, "unknown", None, dt, detail=s.reason_unknown())
 
-    def sat(self, hyps):
+    def sat(self, hyps, timeout_ms=1500):
+        """satisfiability (cover / vacuity) query; short budget: `unknown` counts as not vacuous"""
         s = self._solver()
+        s.set("timeout", timeout_ms)
         for h in hyps:
             s.add(h)
         t0 = time.time()
